@@ -404,9 +404,19 @@ def rule_P4(ctx):
             okd, detd = False, f"case `{case}`: input swap steps {added}"
     okd = okd and seen_d == {"none", "all", "mixed"}
     ctx.ob("P4", mt, "uniform and mixed input byte orders are both dispatched (any / all)", okd, detd or f"cases seen {sorted(seen_d)}", inst="any-all")
-    sbo = ctx.prog.assigned("smpl_extract/data_streams.py", "system_byte_order", "P4")
-    ok = norm(sbo) == "Endianess.BIG if sys.byteorder == 'big' else Endianess.LITTLE"
-    ctx.ob("P4", sbo, "system_byte_order reflects sys.byteorder", ok, norm(sbo), inst="system_byte_order", file="smpl_extract/data_streams.py", qualname="<module>")
+    # module-level definition, interpreted for both values of sys.byteorder (no code is run)
+    DSM = "smpl_extract/data_streams.py"
+    from .sem import Mini
+    dtree = ctx.prog.module(DSM).tree
+    got = {}
+    for bo in ("big", "little"):
+        mi = Mini(ctx, DSM, env={"sys.byteorder": bo, "byteorder": bo})
+        mi.run([st for st in dtree.body if isinstance(st, (ast.Assign, ast.AnnAssign, ast.If))])
+        got[bo] = mi.env.get("system_byte_order")
+    if "system_byte_order" not in {n.id for st in dtree.body for n in ast.walk(st) if isinstance(n, ast.Name) and isinstance(n.ctx, ast.Store)}:
+        raise AnalysisError("P4", f"{DSM}:system_byte_order", "module-level assignment not found (anchor vanished)")
+    ok = str(got["big"]) == "Endianess.BIG" and str(got["little"]) == "Endianess.LITTLE"
+    ctx.ob("P4", dtree.body[0], "system_byte_order reflects sys.byteorder", ok, f"{got}", inst="system_byte_order", file=DSM, qualname="<module>")
     for q in ("swap_endianess", "swap_endianess_multi"):
         f = ctx.fn(TR, q, "P4")
         ok = ".byteswap()" in full(f)
